@@ -70,7 +70,7 @@ def gen_module(rng, modname, with_async_gen=False):
     """returns (source, functions) where functions = list of dicts describing each callable thing"""
     src = ["import functools\nimport mtv.recorder as _r\n\n",
            "def deco(f):\n    @functools.wraps(f)\n    def wrapper(*a, **k):\n"
-           "        _t = _r.enter(f.__qualname__)   # the wrapper is a traced function too (same qualname through functools.wraps)\n"
+           "        _t = _r.enter('deco.<locals>.wrapper')   # the wrapper is a traced function too; it reports under its code's qualname\n"
            "        try:\n            v = f(*a, **k)\n        except BaseException:\n            _r.raising(_t, None)\n            raise\n"
            "        return _r.ret(_t, v)\n    return wrapper\n\n"]
     funcs = []
